@@ -468,16 +468,17 @@ type ContractSet struct {
 	Globals []*GlobalInv
 	Files   []string
 	Ghost   map[string]string // ghost heap name -> element sort
+	SpecTypes map[string]string // spec function -> Go type of its result
 }
 
 func newContractSet() *ContractSet {
-	return &ContractSet{ByKey: map[string]*Contract{}, Macros: map[string]*Macro{}, Ghost: map[string]string{}}
+	return &ContractSet{ByKey: map[string]*Contract{}, Macros: map[string]*Macro{}, Ghost: map[string]string{}, SpecTypes: map[string]string{}}
 }
 
 var clauseKeywords = map[string]bool{
 	"func": true, "props": true, "requires": true, "ensures": true, "modifies": true, "assume-ensures": true,
 	"pure": true, "trusted": true, "maypanic": true, "deadpoints": true, "sampler": true, "loop": true, "site": true, "let": true,
-	"define": true, "global": true, "ghost": true, "unfold": true, "skip": true, "note": true, "package": true, "thorough": true,
+	"define": true, "global": true, "ghost": true, "unfold": true, "spectype": true, "skip": true, "note": true, "package": true, "thorough": true,
 }
 
 // parseContractFile reads a contract file. pkgPrefix is prepended to function
@@ -562,7 +563,7 @@ func (cs *ContractSet) parseContractFile(path, pkgPath string, goFile bool) erro
 			pkgPath = rest
 		case "func":
 			key := strings.Fields(rest)[0]
-			if pkgPath != "" && !strings.Contains(key, "/") && !strings.HasPrefix(key, "ext:") {
+			if pkgPath != "" && !strings.Contains(key, "/") && !strings.HasPrefix(key, "ext:") && !strings.HasPrefix(key, "dyn:") {
 				key = qualifyKey(pkgPath, key)
 			}
 			key = strings.TrimPrefix(key, "ext:")
@@ -610,6 +611,13 @@ func (cs *ContractSet) parseContractFile(path, pkgPath string, goFile bool) erro
 				return fail(fmt.Errorf("ghost <name> <sort>"))
 			}
 			cs.Ghost[f[0]] = strings.TrimSpace(f[1])
+		case "spectype":
+			// spectype <spec function> <Go type>: static Go type of the function's result
+			f := strings.Fields(rest)
+			if len(f) != 2 {
+				return fail(fmt.Errorf("spectype <name> <go type>"))
+			}
+			cs.SpecTypes[f[0]] = f[1]
 		case "global":
 			e, err := parseExpr(rest)
 			if err != nil {
